@@ -266,6 +266,15 @@ Fixpoint value_eqb (a b : value) : bool :=
                            end) x y
   | _, _ => false
   end.
+(* the implementation hands enum values over as their names (plain strings): compare modulo that *)
+Fixpoint canon (v : value) : value :=
+  match v with
+  | VEnum n => VStr n
+  | VList l => VList ((fix go (l : list value) : list value := match l with [] => [] | x :: t => canon x :: go t end) l)
+  | x => x
+  end.
+Definition canon_entries (o : option (list (string * value))) : option (list (string * value)) :=
+  match o with Some l => Some (map (fun e => (fst e, canon (snd e))) l) | None => None end.
 Definition entries_eqb (a b : option (list (string * value))) : bool :=
   option_eqb (list_eqb (pair_eqb String.eqb value_eqb)) a b.
 Definition cform_eqb (a b : cform) : bool :=
